@@ -26,6 +26,8 @@ type NetPolicy struct {
 	LossBudget  int  // datagrams that may still be dropped
 	DupBudget   int  // datagrams that may still be duplicated
 	DelayBudget int  // deliberate sleeps while events are pending
+	MinGap      int  // datagram deliveries that must pass fault-free after a datagram fault (isolated-loss class)
+	sinceFault  int
 	MaxDelay    time.Duration
 	// FilterLink lets a scenario hide links from the generic delivery events
 	// (e.g. a stalled peer's link is never delivered).
@@ -155,7 +157,8 @@ func (r *Run) deliverData(p *NetPolicy, ls simrt.LinkState) {
 
 func (r *Run) deliverDgram(p *NetPolicy, d simrt.DgramState, overtakes bool) {
 	fate := 0
-	if p.LossBudget > 0 || p.DupBudget > 0 {
+	p.sinceFault++
+	if (p.LossBudget > 0 || p.DupBudget > 0) && p.sinceFault > p.MinGap {
 		fate = r.Ch.OneOf("dgram-fate", 0, 0, 0, 0, 0, 0, 1, 2)
 	}
 	if fate == 1 && p.LossBudget <= 0 {
@@ -166,6 +169,9 @@ func (r *Run) deliverDgram(p *NetPolicy, d simrt.DgramState, overtakes bool) {
 	}
 	if overtakes {
 		r.Count("fault_dgram_reorder")
+	}
+	if fate != 0 {
+		p.sinceFault = 0
 	}
 	switch fate {
 	case 1:
@@ -219,13 +225,14 @@ func (r *Run) Step(p *NetPolicy, extra []Ev, idle time.Duration) bool {
 		}
 	}
 	n := len(evs)
-	delay := p.DelayBudget > 0 && p.MaxDelay > 0
+	delay := p.DelayBudget > 0 && p.MaxDelay > 0 && p.sinceFault > p.MinGap
 	if delay {
 		n++
 	}
 	c := r.Ch.Pick(n, "event")
 	if c == len(evs) {
 		p.DelayBudget--
+		p.sinceFault = 0
 		d := time.Duration(1+r.Ch.Pick(1000, "delay-ms")) * p.MaxDelay / 1000
 		r.Logf("delay %v with %d events pending", d, len(evs))
 		r.Count("fault_delay")
